@@ -150,6 +150,16 @@ theorem scripted_get_from_store (hk : env.cacheKind c = .scripted) (s s' : St) (
     ∃ (fp : V) (s1 s2 : St), fingerprintOf run x o s = some (.ok fp, s1) ∧ entryLookup fp (s2.cacheEntries c) = some v ∧
       s2.caches = s1.caches := by
   simp only [backendGet, hk, bind_run] at h
+  -- a blind fault fails the retrieval; otherwise the script is untouched so far
+  have hb : blindFault c s = some (.ok false, s) := by
+    unfold blindFault
+    split
+    · rename_i heq
+      unfold blindFault at h
+      simp only [heq, emit_run, raise_run, if_true, bind_run] at h
+      simp at h
+    · rfl
+  simp only [hb, Bool.false_eq_true, if_false, bind_run] at h
   cases hf : fingerprintOf run x o s with
   | none => simp [hf] at h
   | some p =>
